@@ -19,6 +19,7 @@ LITERALS = [
     b'{"a"/*x*/:/*y*/1/*z*/}', b"[1/", b"/", b"//", b"/*", b"/**", b"[/]",
     b"1 2", b"1\n2", b"[1][2]", b'{"a":1}{"b":2}', b"null true", b"nulltrue", b"truefalse", b"1,2", b'"a""b"', b"12x", b"[12x]", b"[1e5x]", b"{}x", b"[]]",
     b"\xef\xbb\xbf1", b"\x00", b"1\x00", b"1\x002", b"[1\x00]", b'"a\x00b"', b"[1,\x002]", b" \x00", b"nu\x00ll", b"\x00\x00",
+    b"[1/***/]", b"[1/***/]\x00true\x00", b"{\"a\":1/* x **/}\x00[2]\x00", b"[1/*", b"[1//", b"[1/*\x00", b"[[1/*x\x00]]\x00null\x00", b"[1/*\x00*/]\x00", b"{\"a\":[1//\x00\n]}\x00true", b"/***/1", b"/**/1", b"/****/[/*****/]",
     b"-1Infinity", b"[-1Infinity]", b"-1.5Infinity", b"1Infinity", b"-12i", b"[-0I]", b"-1NaN", b"1e5Infinity", b"-1e5I", b"-.5", b"-e", b"-]",
     b"[1,2.5e3,\"x\",true,false,null,{\"k\":[]}]", b"-Infinity", b"[-Infinity, Infinity, NaN]", b"[-I]", b"-i", b"-N", b"-NaN", b"Na", b"I", b"N", b"n", b"t", b"f", b"tr", b"fals",
 ]
